@@ -47,21 +47,26 @@ def n_events(run: dict) -> int:
     return sum(1 for ln in run["lines"] if ln["e"] == "Y")
 
 
-def judge(ctx: Ctx, runs: list[dict], tag: str) -> tuple[dict[int, tuple[int, str]], set[int], tlc.TLCResult]:
-    """Validate runs with EngineStream.tla. Returns ({run index: (line, clause)} for rejected runs, accepted set, result)."""
+def judge(ctx: Ctx, runs: list[dict], tag: str) -> tuple[dict[int, list[tuple[int, str]]], set[int], tlc.TLCResult]:
+    """Validate runs with EngineStream.tla. Returns ({run index: [(first line, clause), ...]} - one entry per violated clause -,
+    accepted set, result)."""
     path = ctx.path("runs_%s.json" % tag)
     tlc.write_json(path, [{"hdr": r["hdr"], "lines": r["lines"]} for r in runs])
     res = tlc.require_ok(tlc.run_tlc("EngineStream", "EngineStream.cfg", env={"OBS_FILE": path}, timeout=1800, heap="8g", workers=1),
                          "EngineStream validation")
-    rejected: dict[int, tuple[int, str]] = {}
+    rejected: dict[int, list[tuple[int, str]]] = {}
     accepted: set[int] = set()
+    first: dict[tuple[int, str], int] = {}
     for p in res.prints:
         if not isinstance(p, list) or not p:
             continue
         if p[0] == "REJECT":
             i, line, clause = p[1] - 1, p[2], p[3]
-            if i not in rejected or line < rejected[i][0]:
-                rejected[i] = (line, clause)
+            key = (i, clause.split(":")[0] if clause.startswith("C11 ProtocolOK") else clause)
+            if key not in first or line < first[key]:
+                first[key] = line
+                rejected.setdefault(i, [])
+                rejected[i] = [x for x in rejected[i] if (x[1].split(":")[0] if x[1].startswith("C11 ProtocolOK") else x[1]) != key[1]] + [(line, clause)]
         elif p[0] == "ACCEPT":
             accepted.add(p[1] - 1)
     accepted -= set(rejected)
@@ -125,7 +130,10 @@ def expand(ctx: Ctx, pid: str, fam: list[dict], rng: random.Random) -> tuple[lis
                           "unique": False, "mf_fault": occ} for lk in ("ok", "bad") for occ in ((1, 2, 3) if quick else (1, 2, 3, 4, 5, 6, 8))]
     elif pid == "C05":
         nb = 36 if quick else 400
-        bases = (pick(lambda d: any(b in ("bad", "neterr", "invalid") for b in d["ops"]) and d["max_failures"] == 0, nb // 2)
+        bases = (pick(lambda d: any(b in ("bad", "neterr", "invalid", "weird") for b in d["ops"]) and d["max_failures"] == 0, nb // 2)
+                 + pick(lambda d: any(b == "weird" for b in d["ops"]), nb // 8 + 1)
+                 + pick(lambda d: d["max_failures"] > 0 and d["workers"] >= 2 and any(b == "bad" for b in d["ops"])
+                        and d["phases"] in (["fuzzing"], ["coverage", "fuzzing"]), nb // 6 + 1)
                  + pick(lambda d: d["links"] == "bad", nb // 6 + 1)
                  + pick(lambda d: all(b == "ok" for b in d["ops"]) and d["links"] != "bad", nb // 6 + 1)
                  + pick(lambda d: any(b == "badif" for b in d["ops"]), nb // 6 + 1))
@@ -321,7 +329,8 @@ def run_property(ctx: Ctx, pid: str, design_cfgs: list[str]) -> Outcome:
     rejected, accepted, jres = judge(ctx, runs, pid)
     own = 0
     foreign: dict[str, int] = {}
-    for i, (line, clause) in sorted(rejected.items()):
+    for i, entries in sorted(rejected.items()):
+      for line, clause in sorted(entries):
         owner = clause[:3]
         if owner == pid:
             own += 1
@@ -369,9 +378,10 @@ def replay(ctx: Ctx, pid: str, data: dict) -> Outcome:
         return out
     run = _run(data["desc"])
     rejected, _, _ = judge(ctx, [run], "replay")
-    for i, (line, clause) in rejected.items():
-        if clause.startswith(pid):
-            out.violations.append(Violation(signature(pid, clause, run, line), "%s at line %d" % (clause, line), data))
+    for i, entries in rejected.items():
+        for line, clause in entries:
+            if clause.startswith(pid):
+                out.violations.append(Violation(signature(pid, clause, run, line), "%s at line %d" % (clause, line), data))
     return out
 
 
@@ -397,7 +407,7 @@ def selftest(ctx: Ctx, pid: str) -> bool:
         bad["lines"][idx:idx] = [dict(x, dg=900 + j) for j, x in enumerate(extra)]
         want = "C12"
     rejected, accepted, _ = judge(ctx, [good, bad], "selftest")
-    ok = 0 in accepted and 1 in rejected and rejected[1][1].startswith(want)
+    ok = 0 in accepted and 1 in rejected and any(c.startswith(want) for _, c in rejected[1])
     if not ok:
         print("selftest detail:", rejected, accepted)
     return ok
